@@ -129,6 +129,25 @@ def canon(a):
     return [int(x) for x in a]
 
 
+def canon_edges(a):
+    """edge ids as Python ints whatever dtype the array has (a wrong dtype is judged by the oracle, it
+    must not break the harness); non-integral / non-numeric values are kept as they are"""
+    a = np.asarray(a)
+    if a.size == 0:
+        return []
+    rows = a.tolist() if a.ndim == 2 else [[x] for x in a.ravel().tolist()]
+    out = []
+    for row in rows:
+        r = []
+        for x in row:
+            try:
+                r.append(int(x) if float(x) == int(x) else float(x))
+            except Exception:  # noqa: BLE001
+                r.append(str(x))
+        out.append(r)
+    return out
+
+
 def obs_props(props, meta):
     out = []
     for name, pd in props.items():
@@ -185,9 +204,19 @@ def observe(case):
         store, mem = call(case)
     except Exception as ex:  # noqa: BLE001
         return {"exc": type(ex).__name__, "msg": str(ex)[:160]}
+    try:
+        return _describe(case, store, mem)
+    except Exception as ex:  # noqa: BLE001  (the result has not the shape of an InMemoryGeff: an observation, not a crash)
+        return {"unreadable": f"{type(ex).__name__}: {str(ex)[:200]}"}
+
+
+def _describe(case, store, mem):
+    from geff.validate.data import ValidationConfig, validate_data
+    from geff.validate.structure import validate_structure
+
     md = mem["metadata"]
     o = {"node_ids": canon(mem["node_ids"]), "id_dtype": mem["node_ids"].dtype.name,
-         "edges": canon(mem["edge_ids"]) if mem["edge_ids"].size else [],
+         "edges": canon_edges(mem["edge_ids"]),
          "edge_dtype": mem["edge_ids"].dtype.name, "edge_shape": list(mem["edge_ids"].shape),
          "directed": bool(md.directed),
          "axes": [[a.name, a.type, a.unit, None if a.min is None else float(a.min).hex(),
@@ -228,6 +257,9 @@ def oracle(case, o):
     e = effective(case)
     n, m, directed = e["n"], e["m"], e["directed"]
     bad = []
+    if "unreadable" in o:
+        return [("C20:result-not-an-in-memory-geff", f"the returned value cannot be read as an InMemoryGeff: {o['unreadable']}",
+                 "an InMemoryGeff")]
     if "exc" in o:
         key = "C20:exception"
         if n == 0 and e["vl"] and o["exc"] == "IndexError":
@@ -237,9 +269,14 @@ def oracle(case, o):
     if o["node_ids"] != list(range(n)):
         bad.append(("C20:node-count", f"node ids {o['node_ids'][:8]}… for num_nodes={n}", list(range(n))))
     if o["id_dtype"] != np_name(e["id"]) or o["edge_dtype"] != np_name(e["id"]):
-        bad.append(("C20:id-dtype", f"id dtypes {o['id_dtype']}/{o['edge_dtype']}", np_name(e["id"])))
+        bad.append(("C20:id-dtype", f"node id dtype {o['id_dtype']}, edge id dtype {o['edge_dtype']} for requested "
+                    f"node_id_dtype={e['id']!r}", np_name(e["id"])))
     # edges
     want = min(m, max_possible(directed, n))
+    if any(len(x) != 2 or not all(isinstance(v, int) for v in x) for x in o["edges"]):
+        bad.append(("C20:edge-shape", f"edge ids are not pairs of integers: {o['edges'][:4]} (shape {o['edge_shape']}, "
+                    f"dtype {o['edge_dtype']})", "an (E, 2) integer array"))
+        return bad
     es = [tuple(x) for x in o["edges"]]
     if o["edge_shape"] != [len(es), 2] and not (len(es) == 0 and o["edge_shape"] == [0, 2]):
         bad.append(("C20:edge-shape", f"edge array shape {o['edge_shape']}", [len(es), 2]))
@@ -371,6 +408,8 @@ def compare_model(case, o, mo, arrays):
     """-> None or a short description of the first difference"""
     if "err" in mo:
         return f"driver error {mo['err']}"
+    if "unreadable" in o:
+        return "implementation result unreadable"
     if "exc" in mo or "exc" in o:
         if mo.get("exc") != o.get("exc"):
             return f"outcome: model {mo.get('exc', 'ok')} impl {o.get('exc', 'ok')}"
@@ -543,16 +582,29 @@ def run(ck: common.Check):
     ck.extra["create_props_metadata_accepts_empty_object_array (D15 repaired on this tree)"] = vlen_ok
     obs = common.pmap(observe, cases, chunksize=32)
 
+    def guarded(what, c, f, dflt):
+        """nothing the harness computes about a case may abort the check: an exception here means the
+        implementation's output has a form the oracle cannot judge — reported with the parameters"""
+        try:
+            return f()
+        except Exception as ex:  # noqa: BLE001
+            ck.fail("C20:harness-cannot-judge-output", f"{what} raised {type(ex).__name__}: {str(ex)[:160]}", c,
+                    None, "an output of the specified form")
+            return dflt
+
     reqs, arrs = [], []
     for c in cases:
-        r, a = model_request(c, vlen_ok)
+        r, a = guarded("building the model request", c, lambda c=c: model_request(c, vlen_ok),
+                       ({"op": "gen", "directed": False, "n": 0, "m": 0}, []))
         reqs.append(r)
         arrs.append(a)
     gen_reqs, spec_reqs = [], []
     for c, o in zip(cases, obs):
         e = effective(c)
         gen_reqs.append({"op": "gen", "directed": e["directed"], "n": e["n"], "m": e["m"]})
-        es = o.get("edges", []) if "exc" not in o else []
+        es = o.get("edges", []) if ("exc" not in o and "unreadable" not in o) else []
+        if any(len(x) != 2 or not all(isinstance(v, int) for v in x) for x in es):
+            es = []
         spec_reqs.append({"op": "spec", "directed": e["directed"], "n": e["n"], "m": e["m"],
                           "edges": [[str(a), str(b)] for a, b in es]})
     answers = drv.ask(reqs + gen_reqs + spec_reqs)
@@ -561,27 +613,33 @@ def run(ck: common.Check):
     k = len(cases)
     s_evals = 0
     for i, (c, o) in enumerate(zip(cases, obs)):
-        ck.case(c, tag_of(c, o), nontrivial=effective(c)["n"] > 0)
+        ck.case(c, guarded("tagging", c, lambda: tag_of(c, o), "untagged"), nontrivial=effective(c)["n"] > 0)
         mal = bool(c.get("malformed"))
-        fails = [] if mal else oracle(c, o)
+        fails = [] if mal else guarded("the specification oracle", c, lambda: oracle(c, o), [("C20:harness-cannot-judge-output", "", "")])
         for key, what, exp in fails:
-            ck.fail(key, what, c, {kk: o.get(kk) for kk in ("exc", "msg", "edges", "graph", "store") if kk in o}, exp)
+            if key == "C20:harness-cannot-judge-output":
+                continue      # already recorded by guarded()
+            ck.fail(key, what, c, {kk: o.get(kk) for kk in ("exc", "msg", "unreadable", "edges", "id_dtype", "edge_dtype",
+                                                            "graph", "store") if kk in o}, exp)
         if answers is None:
             continue
         mo, go, so = answers[i], answers[k + i], answers[2 * k + i]
+        readable = "exc" not in o and "unreadable" not in o
         # translated generator == implementation's edge list
-        if "exc" not in o and "err" not in go:
+        if readable and "err" not in go:
             tr = go["translated"]
-            if not go.get("translationOk") or "ok" not in tr or [list(map(int, x)) for x in tr["ok"]] != o["edges"]:
-                ck.corr_broken("C20:Gen.MockEdges.gen (T9) vs create_dummy_in_mem_geff edge list", c, o["edges"], tr)
+            same = guarded("comparing the translated generator", c,
+                           lambda: "ok" in tr and [list(map(int, x)) for x in tr["ok"]] == o["edges"], False)
+            if not go.get("translationOk") or not same:
+                ck.corr_broken("C20:Gen.MockEdges.gen (T9) vs create_dummy_in_mem_geff edge list", c, o["edges"][:20], tr)
         # Lean spec decider vs python oracle on the observed edges
-        if "exc" not in o and not mal and "err" not in so:
+        if readable and not mal and "err" not in so and not any(key == "C20:edge-shape" for key, _, _ in fails):
             s_evals += 1
             py_ok = not any(key in ("C20:edge-count", "C20:self-edge", "C20:dangling-endpoint", "C20:repeated-edge")
                             for key, _, _ in fails)
             if so["ok"] != py_ok:
                 ck.corr_broken("C20:edgesOk (Lean spec decider) vs python oracle", c, py_ok, so)
-        d = compare_model(c, o, mo, arrs[i])
+        d = guarded("comparing with the model", c, lambda: compare_model(c, o, mo, arrs[i]), "comparison failed")
         if d is not None:
             # the model describes the repaired behaviour; where the spec oracle already reports the
             # implementation, the disagreement is the violation itself and not a second finding
@@ -608,8 +666,11 @@ def run(ck: common.Check):
 def replay(rp):
     c = rp["case"]
     o = observe(c)
-    fails = [] if c.get("malformed") else oracle(c, o)
-    print(json.dumps({"case": c, "observed": {k: o.get(k) for k in ("exc", "msg", "edges", "graph", "store", "node_meta", "edge_meta") if k in o},
+    try:
+        fails = [] if c.get("malformed") else oracle(c, o)
+    except Exception as ex:  # noqa: BLE001
+        fails = [("C20:harness-cannot-judge-output", f"the specification oracle raised {type(ex).__name__}: {ex}", "")]
+    print(json.dumps({"case": c, "observed": {k: o.get(k) for k in ("exc", "msg", "unreadable", "edges", "id_dtype", "edge_dtype", "graph", "store", "node_meta", "edge_meta") if k in o},
                       "failures": [[k, w] for k, w, _ in fails]}, default=str))
     print("REPLAY: property holds on this input" if not fails else "REPLAY: property FAILS on this input")
     return 0 if not fails else 1
